@@ -109,7 +109,7 @@ inline void eraseScalars(RegionData &D, i128 lo, i128 hi) {   // [lo,hi)
 inline void doStore(State &S, const Val &p, const Val &v, unsigned n, const Instruction *I) {
   if (!checkAccess(S, p, n, n, true, I, "store")) return;
   Region &R = S.regions[p.reg];
-  if (R.kind == RK_ERRNO) { S.errnoSet = true; S.errnoVal = v; return; }
+  if (R.kind == RK_ERRNO) { S.errnoSet = true; S.errnoVal = v; S.errnoAt = I ? (std::string(I->getFunction()->getName()) + ":" + std::to_string(lineOf(I))) : std::string("?"); return; }
   ensureTracked(S, R);
   RegionData &D = R.w();
   i128 olo, ohi; offsetBounds(S, p, olo, ohi);
@@ -129,7 +129,7 @@ inline void doStore(State &S, const Val &p, const Val &v, unsigned n, const Inst
 
 Val constToVal(State &S, const Constant *C);
 
-inline Val loadGlobalConst(State &S, const Region &R, Type *ty, i128 olo, i128 ohi, unsigned n, const KnownBits *okb = nullptr) {
+inline Val loadGlobalConst(State &S, const Region &R, Type *ty, i128 olo, i128 ohi, unsigned n, const KnownBits *okb = nullptr, const std::bitset<256> *ocs = nullptr) {
   const Constant *init = R.gv->getInitializer();
   if (olo == ohi) {
     Constant *c = ConstantFoldLoadFromConst(const_cast<Constant *>(init), ty, APInt(64, (uint64_t)olo), *DLp);
@@ -140,6 +140,7 @@ inline Val loadGlobalConst(State &S, const Region &R, Type *ty, i128 olo, i128 o
     std::bitset<256> cs;
     Type *i8 = Type::getInt8Ty(M->getContext());
     for (i128 o = olo; o <= ohi; o++) {
+      if (ocs && o >= 0 && o < 256 && !(*ocs)[(size_t)o]) continue;
       if (okb && !okb->isUnknown()) { APInt oa(64, (uint64_t)o); if (!(oa & okb->Zero).isZero() || (oa & okb->One) != okb->One) continue; }
       Constant *c = ConstantFoldLoadFromConst(const_cast<Constant *>(init), i8, APInt(64, (uint64_t)o), *DLp);
       if (auto *ci = dyn_cast_or_null<ConstantInt>(c)) cs.set((size_t)ci->getZExtValue()); else { cs.set(); break; }
@@ -175,7 +176,7 @@ inline Val doLoad1(State &S, const Val &p, Type *ty, const Instruction *I) {
   Region &R = S.regions[p.reg];
   if (R.kind == RK_ERRNO) return S.errnoSet ? S.errnoVal : Val::top(32);
   i128 olo, ohi; offsetBounds(S, p, olo, ohi);
-  if (R.gv && R.gv->hasInitializer() && (R.gv->isConstant() || !R.d)) return loadGlobalConst(S, R, ty, olo, ohi, n, &p.kb);
+  if (R.gv && R.gv->hasInitializer() && (R.gv->isConstant() || !R.d)) return loadGlobalConst(S, R, ty, olo, ohi, n, &p.kb, p.hascs ? &p.cs : nullptr);
   const RegionData &D = R.rd();
   auto cellAt = [&](i128 o) -> const ByteCell & { return D.get(o); };
   if (olo == ohi) {
